@@ -1,6 +1,8 @@
 """C10 - every request answered exactly once, in order, under back-pressure.  Theorems: Properties/C10.v.
 T2: controlled scheduler with queue capacity 1 and abandon actions (actorcheck) + RESP connections in many
 splittings: one reply per command in order (conncheck)."""
+import json
+from .. import common as C
 from . import actorcheck, conncheck
 
 COQ_TARGETS = ["Corr/ActorCorr.vo", "Corr/ConnCorr.vo", "Properties/C10.vo"]
@@ -19,3 +21,29 @@ def run(ctx):
     ctx.coverage["model_impl_disagreements"] = cov.get("model_impl_disagreements", 0) + conn_cov.get("model_impl_disagreements", 0)
     ctx.coverage["input_distribution"] = {"actor": cov.get("input_distribution"), "resp_connections": conn_cov.get("input_distribution")}
     ctx.coverage["rule"] = cov.get("rule", "") + " || RESP: " + conn_cov.get("rule", "")
+    # connection drops at every byte offset: the dropped client's complete commands are applied at most once each, an incomplete
+    # command never, a bystander connection gets exactly its own answers
+    bins = C.harness_build(ctx, "srv", ["conn"])
+    if bins:
+        out = C.run_harness(ctx, bins["conn"], ["--mode", "drops", "--cases", 12 if ctx.tier == "quick" else 150, "--seed", ctx.seed], timeout=2400)
+        drops = 0
+        exhaustive = 0
+        for l in out.splitlines():
+            if not l.startswith("{"):
+                continue
+            d = json.loads(l)
+            exhaustive += len(d["rows"]) == d["stream_len"] + 1
+            for r in d["rows"]:
+                drops += 1
+                b = d["burst"]
+                inp = {"pipeline": "%d x THROTTLE key %d 1 9000000 (quantity 1)" % (d["commands"], b), "stream_bytes": d["stream_len"], "dropped_after_bytes": r["offset"],
+                       "complete_commands_sent": r["complete"], "probe": {"allowed": r["probe_allowed"], "remaining": r["remaining"]}, "bystander_ok": r["bystander_ok"]}
+                if not r["bystander_ok"]:
+                    ctx.violations.append({"what": "C10: a client that disconnects mid-request changed the answers of another connection (bystander on its own key)", "input": inp})
+                elif r["probe_allowed"] != 1 or not (b - r["complete"] <= r["remaining"] <= b):
+                    ctx.violations.append({"what": "C10: after a connection was dropped at byte %d the key's budget is %d of %d although %d complete commands were sent "
+                                                   "(each complete command is applied at most once, an incomplete one never)" % (r["offset"], r["remaining"], b, r["complete"]), "input": inp})
+        ctx.coverage["evaluations"] = ctx.coverage.get("evaluations", 0) + drops
+        ctx.coverage["traces_validated_against_impl"] = ctx.coverage.get("traces_validated_against_impl", 0) + drops
+        ctx.coverage.setdefault("input_distribution", {})["connection_drops"] = {"drops": drops, "pipelines_cut_at_every_offset": exhaustive}
+        ctx.coverage["rule"] = ctx.coverage.get("rule", "") + " || drops: pipelines of 1..4 THROTTLE commands cut at every byte offset (1 in 3 pipelines) or at 12 PRNG offsets, socket closed without reading, probe of the key's budget and a bystander connection"
